@@ -728,7 +728,9 @@ func (u *Unit) havocLoop(st *State, body ast.Node, extra []ast.Node, ls *LoopSpe
 	ast.Inspect(body, func(n ast.Node) bool {
 		switch x := n.(type) {
 		case *ast.CallExpr:
-			writes = true
+			if !u.isHarmlessCall(x) {
+				writes = true
+			}
 		case *ast.AssignStmt:
 			for _, l := range x.Lhs {
 				if u.isHeapTarget(l) {
@@ -1513,4 +1515,27 @@ func (u *Unit) isHeapTarget(e ast.Expr) bool {
 			return true
 		}
 	}
+}
+
+// isHarmlessCall: conversions, non-mutating builtins and calls into pure packages / math do not write the heap.
+func (u *Unit) isHarmlessCall(x *ast.CallExpr) bool {
+	info := u.pkg.TypesInfo
+	if tv, ok := info.Types[x.Fun]; ok && tv.IsType() {
+		return true
+	}
+	switch c := typeutil.Callee(info, x).(type) {
+	case *types.Builtin:
+		switch c.Name() {
+		case "len", "cap", "min", "max", "real", "imag", "complex":
+			return true
+		}
+	case *types.Func:
+		if c.Pkg() != nil && (c.Pkg().Path() == "math" || isPurePkg(u.eng.cs, c)) {
+			return true
+		}
+		if cc := u.eng.cs.Funcs[calleeKey(c)]; cc != nil && cc.HasMod && len(cc.Modifies) == 0 && !cc.Flags["allocates"] {
+			return true
+		}
+	}
+	return false
 }
